@@ -7,6 +7,8 @@ import extract as E
 FLP = 'src/Factored/MDP/Algorithms/Utils/FactoredLP.cpp'
 MLP = 'src/Factored/MDP/Algorithms/LinearProgramming.cpp'
 GVE = 'include/AIToolbox/Factored/Utils/GenericVariableElimination.hpp'
+LPW = 'src/Utils/LP/LpSolveWrapper.cpp'
+LPLIB = '/usr/include/lpsolve/lp_lib.h'
 
 
 def _body(src, header_re, what):
@@ -42,6 +44,91 @@ def _for_body(body, what):
         raise E.ExtractError(what + ': unbalanced loop')
     j = rest.index(';')
     return rest[:j + 1], rest[j + 1:]
+
+
+def _lp_code(tok, what):
+    """numeric value of an lp_solve result code written as a literal or as a macro of lp_lib.h"""
+    tok = tok.strip()
+    if re.fullmatch(r'-?\d+', tok):
+        return int(tok)
+    hdr = open(LPLIB).read()
+    m = re.search(r'^#define\s+' + re.escape(tok) + r'\s+(-?\d+)\s*$', hdr, re.M)
+    if not m:
+        raise E.ExtractError('%s: unknown lp_solve result code %r' % (what, tok))
+    return int(m.group(1))
+
+
+def _code_list(cond, what):
+    """`result == A || result == B …` -> [A, B, …]"""
+    parts = [p.strip() for p in cond.split('||')]
+    out = []
+    for p in parts:
+        m = re.fullmatch(r'result\s*==\s*(\w+)', p)
+        if not m:
+            raise E.ExtractError('%s: unknown test %r' % (what, p))
+        out.append(_lp_code(m.group(1), what))
+    return out
+
+
+def lp_solve_facts():
+    """LP::solve: [first ::solve] [if (result in RETRY) { …; result = ::solve(lp); … }] [if (result in ACCEPT) solution = …]"""
+    src = E.strip_comments(E.read(LPW))
+    body, ln = _body(src, r'std::optional<Vector>\s+LP::solve\s*\([^)]*\)\s*\{', LPW + ' LP::solve')
+    calls = [m.start() for m in re.finditer(r'::solve\s*\(\s*lp\s*\)', body)]
+    if len(calls) != 2:
+        raise E.ExtractError(LPW + ': LP::solve is expected to call ::solve(lp) twice (first attempt, guarded retry), found %d' % len(calls))
+    between = body[calls[0]:calls[1]]
+    m = re.search(r'if\s*\(([^{};]*)\)\s*\{', between)
+    if not m or re.search(r'\belse\b|\bwhile\b|\bfor\b', between):
+        raise E.ExtractError(LPW + ': LP::solve: the retry is not a single `if (result == …) {` block')
+    retry = _code_list(m.group(1), LPW + ' LP::solve retry test')
+    after = body[calls[1]:]
+    m2 = re.search(r'if\s*\(([^{};]*)\)\s*solution\s*=', after)
+    if not m2 or len(re.findall(r'solution\s*=', body)) != 1:
+        raise E.ExtractError(LPW + ': LP::solve: `if (result == …) solution = …` not found exactly once after the retry')
+    accept = _code_list(m2.group(1), LPW + ' LP::solve accept test')
+    # the scaling mode may only be changed on an UNSCALED model: set_scaling after a solve rescales the already scaled data and lp_solve
+    # then reports wrong optima with result 0 (measured); `unscale(lp); set_scaling(lp, …)` is the safe form
+    flatb = re.sub(r'\s+', '', between)
+    for m3 in re.finditer(r'set_scaling\(lp,([^;]*)\);', flatb):
+        pre = flatb[:m3.start()]
+        if not pre.endswith('unscale(lp);') and 'unscale(lp);' not in pre:
+            raise E.ExtractError(LPW + ': LP::solve changes the scaling between attempts without unscale(lp) first (lp_solve then rescales the scaled model)')
+    if re.search(r'\bset_scalemode\b', body) or re.search(r'\bset_scaling\b', body[:calls[0]]):
+        raise E.ExtractError(LPW + ': LP::solve touches the scaling mode outside the retry block')
+    return retry, accept, ln
+
+
+# ---------------------------------------------------------------- shared helpers one level below the two builders
+UCORE = 'include/AIToolbox/Utils/Core.hpp'
+FCORE = 'src/Factored/Utils/Core.cpp'
+_HELPERS = [
+    # (fact name, file, header regex, expected body with all whitespace removed, what the model assumes)
+    ('helperCheckEqualSmallIsAbsLe', UCORE, r'inline\s+bool\s+checkEqualSmall\s*\(\s*const\s+double\s+a\s*,\s*const\s+double\s+b\s*\)\s*\{',
+     'return(std::fabs(a-b)<=equalToleranceSmall);',
+     'checkEqualSmall(a, b) is |a - b| <= equalToleranceSmall (model: isZeroSmall)'),
+    ('helperJoinKeysOffsetsByS', FCORE, r'PartialKeys\s+join\s*\(\s*const\s+size_t\s+S\s*,\s*const\s+PartialKeys\s*&\s*lhs\s*,\s*const\s+PartialKeys\s*&\s*rhs\s*\)\s*\{',
+     'PartialKeysretval;retval.reserve(lhs.size()+rhs.size());retval.insert(std::end(retval),std::begin(lhs),std::end(lhs));'
+     'std::transform(std::begin(rhs),std::end(rhs),std::back_inserter(retval),[S](constsize_ta){returna+S;});returnretval;',
+     'join(S, tag, actionTag) = tag ++ actionTag.map (+S) (model: joinTag)'),
+    ('helperToIndexPartialPF', FCORE, r'size_t\s+toIndexPartial\s*\(\s*const\s+PartialKeys\s*&\s*ids\s*,\s*const\s+Factors\s*&\s*space\s*,\s*const\s+PartialFactors\s*&\s*pf\s*\)\s*\{',
+     'size_tresult=0;size_tmultiplier=1;size_tj=0;for(autoid:ids){while(pf.first[j]!=id)++j;result+=multiplier*pf.second[j];multiplier*=space[id];}returnresult;',
+     'toIndexPartial(keys, space, partial factors) is the little-endian mixed-radix index over the keys (model: toIndexPartial)'),
+    ('helperEnumeratorAdvance', FCORE, r'void\s+PartialFactorsEnumerator::advance\s*\(\s*\)\s*\{',
+     'size_tid=!factorToSkipId_;while(id<factors_.second.size()){++factors_.second[id];if(factors_.second[id]==F[factors_.first[id]]){factors_.second[id]=0;'
+     'if(++id==factorToSkipId_)++id;}elsereturn;}factors_.second.clear();',
+     'PartialFactorsEnumerator::advance counts little-endian over the keys, skipping the eliminated one (model: toFactors (sel nb A) jvID)'),
+]
+
+
+def helper_facts():
+    rows = []
+    for nm, rel, hdr, expect, doc in _HELPERS:
+        src = E.strip_comments(E.read(rel))
+        body, ln = _body(src, hdr, rel + ' ' + nm)
+        flat = re.sub(r'\s+', '', body)
+        rows.append((nm, 'Bool', 'true' if flat == expect else 'false', rel, ln, doc))
+    return rows
 
 
 def gen_c15facts():
@@ -110,6 +197,10 @@ def gen_c15facts():
     m1 = E.find1(r'for\s*\(\s*const\s+auto\s*&\s*rule\s*:\s*factor->getData\(\)\s*\)\s*if\s*\(\s*jvPartialIndex\s*==\s*rule\.first\s*\)\s*global\.crossSum\(rule\.second\)', src, 'GVE non-merge lookup loop')
     E.find1(r'oldRules\.emplace_back\(\s*jvID\s*,', src, 'GVE non-merge append')
     rows.append(('gveAppendsAndSumsAllMatches', 'Bool', 'true', GVE, E.lineno(src, m1.start()), 'without mergeFactors: new rules are appended, every rule with the wanted index is cross-summed'))
+    rows += helper_facts()
+    retry, accept, ln = lp_solve_facts()
+    rows.append(('lpRetryCodes', 'List Int', '[' + ', '.join(map(str, retry)) + ']', LPW, ln, 'lp_solve result codes after which LP::solve calls ::solve a second time (first-index pricing)'))
+    rows.append(('lpAcceptCodes', 'List Int', '[' + ', '.join(map(str, accept)) + ']', LPW, ln, 'lp_solve result codes with which LP::solve hands the point back'))
     out = ['/- GENERATED by tools/extract_c15.py from the library source — do not edit. -/', 'namespace AITB.Gen', '']
     for nm, ty, val, rel, ln, doc in rows:
         out.append(f'/-- {doc} ({rel}:{ln}) -/')
@@ -118,4 +209,230 @@ def gen_c15facts():
     E.write_if_changed('C15Facts', '\n'.join(out))
 
 
-GENERATORS = [gen_c15facts]
+# ---------------------------------------------------------------- callback bodies -> statement lists (AITB.Model.FLPBuf.BStmt)
+_IX = {'newFactor': '.newFactor', 'f': '.f', 'phiId': '.phi', 'ruleId': '.rule', 'ruleId+1': '.rule1'}
+_SHIFT = re.compile(r'for\(inti=lp\.row\.size\(\)-2;i>=0;--i\)\{?if\(lp\.row\[i\]!=0\.0\)\{lp\.row\[i\+1\]=lp\.row\[i\];lp\.row\[i\]=0\.0;\}\}?')
+_WRITE = re.compile(r'lp\.row\[([A-Za-z0-9_+]+)\]=([+-]?[0-9.]+);')
+_PUSH = re.compile(r'lp\.pushRow\(LP::Constraint::LessEqual,0\.0\);')
+_FORF = re.compile(r'for\((?:const)?auto&?ruleId:finalFactors\)')
+
+
+def _write_stmt(m, what, in_loop):
+    ix = m.group(1)
+    if ix not in _IX or (ix.startswith('ruleId') and not in_loop):
+        raise E.ExtractError('%s: unknown index expression lp.row[%s]' % (what, ix))
+    return _IX[ix], E.lean_rat(E.lit_to_rat(m.group(2)))
+
+
+def _stmts(flat, what):
+    """flat = body with all whitespace removed"""
+    out, i = [], 0
+    while i < len(flat):
+        rest = flat[i:]
+        if rest.startswith('lp.row.setZero();'):
+            out.append('.setZero'); i += len('lp.row.setZero();'); continue
+        m = _PUSH.match(rest)
+        if m:
+            out.append('.pushLe'); i += m.end(); continue
+        m = _SHIFT.match(rest)
+        if m:
+            if m.group(0).count('{') != m.group(0).count('}'):
+                raise E.ExtractError(what + ': unbalanced shift loop')
+            out.append('.shiftRight'); i += m.end(); continue
+        m = _FORF.match(rest)
+        if m:
+            j = i + m.end()
+            ws = []
+            if flat[j] == '{':
+                k = flat.index('}', j)
+                inner = flat[j + 1:k]; nxt = k + 1
+            else:
+                k = flat.index(';', j)
+                inner = flat[j:k + 1]; nxt = k + 1
+            pos = 0
+            while pos < len(inner):
+                mw = _WRITE.match(inner[pos:])
+                if not mw:
+                    raise E.ExtractError('%s: statement inside the finalFactors loop is not `lp.row[..] = literal;`: %s' % (what, inner[pos:pos + 60]))
+                ix, q = _write_stmt(mw, what, True)
+                ws.append('(%s, %s)' % (ix, q)); pos += mw.end()
+            out.append('.forFinals [' + ', '.join(ws) + ']'); i = nxt; continue
+        m = _WRITE.match(rest)
+        if m:
+            ix, q = _write_stmt(m, what, False)
+            out.append('.write %s %s' % (ix, q)); i += m.end(); continue
+        raise E.ExtractError('%s: statement of unknown shape: %s' % (what, rest[:80]))
+    return out
+
+
+def gen_c15callbacks():
+    out = ['/- GENERATED by tools/extract_c15.py from the library source — do not edit.',
+           '   The bodies of Global::beginCrossSum / crossSum / endCrossSum / makeResult of the two LP builders, statement by statement. -/',
+           'import AITB.Model.FLPBuf', 'namespace AITB.Gen', 'open AITB.FLP', '']
+    for rel, nm in ((FLP, 'flpCallbacks'), (MLP, 'mdpCallbacks')):
+        src = E.strip_comments(E.read(rel))
+        fields = []
+        for cb, hdr in (('beginCrossSum', r'void\s+Global::beginCrossSum\s*\(\s*\)\s*\{'),
+                        ('crossSum', r'void\s+Global::crossSum\s*\(\s*const\s+Factor\s*&\s*f\s*\)\s*\{'),
+                        ('endCrossSum', r'void\s+Global::endCrossSum\s*\(\s*\)\s*\{'),
+                        ('makeResult', r'void\s+Global::makeResult\s*\(\s*VE::FinalFactors\s*&&\s*finalFactors\s*\)\s*\{')):
+            body, ln = _body(src, hdr, rel + ' Global::' + cb)
+            st = _stmts(re.sub(r'\s+', '', body), '%s:%d Global::%s' % (rel, ln, cb))
+            fields.append('  %s := [%s]' % (cb, ', '.join(st)))
+        out.append('/-- %s -/' % rel)
+        out.append('def %s : Callbacks := {\n%s }' % (nm, ',\n'.join(fields)))
+        out.append('')
+    out += ['end AITB.Gen', '']
+    E.write_if_changed('C15Callbacks', '\n'.join(out))
+
+
+# ---------------------------------------------------------------- FactoredLP setup loops -> statement lists (AITB.Model.FLPBuf.SStmt)
+_SIX = {'currentRule': '.rule', 'currentRule+1': '.rule1', 'currentWeight': '.weight', 'constBasisId': '.const'}
+_SWRITE = re.compile(r'(if\(addConstantBasis\))?lp\.row\[([A-Za-z0-9_+]+)\]=([^;]+);')
+_SPUSH = re.compile(r'lp\.pushRow\(LP::Constraint::Equal,([^;]+)\);')
+_TAIL = 'newFactor->getData().emplace_back(i,currentRule);currentRule+=2;'
+
+
+def _sval(tok, what):
+    if tok == 'f.values[i]':
+        return '.val'
+    if tok == '-f.values[i]':
+        return '.negVal'
+    if tok == 'constBasisCoeff':
+        return '.cc'
+    if tok == '-constBasisCoeff':
+        return '.negCc'
+    if re.fullmatch(r'[+-]?[0-9.]+', tok):
+        return '(.lit %s)' % E.lean_rat(E.lit_to_rat(tok))
+    raise E.ExtractError('%s: unknown value expression %r' % (what, tok))
+
+
+def _setup_body(flat, what):
+    if not flat.endswith(_TAIL):
+        raise E.ExtractError(what + ': the entry loop does not end with `emplace_back(i, currentRule); currentRule += 2;`')
+    flat = flat[:-len(_TAIL)]
+    out, i = [], 0
+    while i < len(flat):
+        rest = flat[i:]
+        m = _SPUSH.match(rest)
+        if m:
+            out.append('.pushEq ' + _sval(m.group(1), what)); i += m.end(); continue
+        m = _SWRITE.match(rest)
+        if m:
+            if m.group(2) not in _SIX:
+                raise E.ExtractError('%s: unknown index expression lp.row[%s]' % (what, m.group(2)))
+            out.append(('.writeIfConst ' if m.group(1) else '.write ') + _SIX[m.group(2)] + ' ' + _sval(m.group(3), what)); i += m.end(); continue
+        raise E.ExtractError('%s: statement of unknown shape: %s' % (what, rest[:80]))
+    return out
+
+
+def _block_after(src, header_re, what):
+    """body of the braced block that starts at the match of header_re, and the text after it"""
+    m = E.find1(header_re, src, what)
+    i = src.index('{', m.end() - 1)
+    depth = 0
+    for j in range(i, len(src)):
+        if src[j] == '{':
+            depth += 1
+        elif src[j] == '}':
+            depth -= 1
+            if depth == 0:
+                return src[i + 1:j], src[j + 1:]
+    raise E.ExtractError('unbalanced braces: ' + what)
+
+
+_MW = re.compile(r'lp\.row\[(currentRule|currentWeight)\]=([^;]+);')
+_MP = re.compile(r'lp\.pushRow\(LP::Constraint::Equal,([^;]+)\);')
+
+def _mval(tok, what):
+    t = tok
+    if t in ('-f.values[sId]',):
+        return '.negVal'
+    if t in ('+discount*f.values(sId,aId)', 'discount*f.values(sId,aId)'):
+        return '.discVal'
+    if t in ('f.values(sId,aId)',):
+        return '.val'
+    if re.fullmatch(r'[+-]?[0-9.]+', t):
+        return '(.lit %s)' % E.lean_rat(E.lit_to_rat(t))
+    raise E.ExtractError('%s: unknown value expression %r' % (what, tok))
+
+def mdp_loop_body(flat, guard, tail, what):
+    if not flat.startswith(guard):
+        raise E.ExtractError(what + ': the entry loop does not start with the zero-skip guard ' + guard)
+    if not flat.endswith(tail):
+        raise E.ExtractError(what + ': the entry loop does not end with ' + tail)
+    flat = flat[len(guard):len(flat) - len(tail)]
+    out, i = [], 0
+    while i < len(flat):
+        rest = flat[i:]
+        if rest.startswith('lp.addColumn();'):
+            out.append('.addColumn'); i += len('lp.addColumn();'); continue
+        if rest.startswith('lp.row.setZero();'):
+            out.append('.setZero'); i += len('lp.row.setZero();'); continue
+        m = _MP.match(rest)
+        if m:
+            out.append('.pushEq ' + _mval(m.group(1), what)); i += m.end(); continue
+        m = _MW.match(rest)
+        if m:
+            out.append('.write %s %s' % ('.rule' if m.group(1) == 'currentRule' else '.weight', _mval(m.group(2), what))); i += m.end(); continue
+        raise E.ExtractError('%s: statement of unknown shape: %s' % (what, rest[:80]))
+    return out
+
+def mdp_setup_bodies():
+    src = E.strip_comments(E.read(MLP))
+    body, _ = _body(src, r'std::optional<Vector>\s+LinearProgramming::solveLP\s*\([^)]*\)\s*const\s*\{', MLP + ' solveLP')
+    res = {}
+    outH, after = _block_after(body, r'for\s*\(\s*const\s+auto\s*&\s*f\s*:\s*h\.bases\s*\)\s*\{', MLP + ' loop over h.bases')
+    inH, _ = _block_after(outH, r'for\s*\(\s*int\s+sId\s*=\s*0\s*;\s*sId\s*<\s*f\.values\.size\(\)\s*;\s*\+\+sId\s*\)\s*\{', MLP + ' entry loop of h')
+    res['mdpSetupHBody'] = mdp_loop_body(re.sub(r'\s+', '', inH), 'if(checkEqualSmall(f.values[sId],0.0))continue;',
+                                         'newFactor->getData().emplace_back(sId,currentRule);currentRule+=1;', MLP + ' entry loop of h')
+    for nm, hdr in (('mdpSetupGBody', r'for\s*\(\s*const\s+auto\s*&\s*f\s*:\s*g\.bases\s*\)\s*\{'), ('mdpSetupRBody', r'for\s*\(\s*const\s+auto\s*&\s*f\s*:\s*R\.bases\s*\)\s*\{')):
+        outer, after = _block_after(after, hdr, MLP + ' ' + nm)
+        flat_outer = re.sub(r'\s+', '', outer)
+        if not flat_outer.startswith('autonewFactor=graph.getFactor(join(S.size(),f.tag,f.actionTag));autoaMult=1;for(autoid:f.tag)aMult*=S[id];for(intsId=0;sId<f.values.rows();++sId){for(intaId=0;aId<f.values.cols();++aId){'):
+            raise E.ExtractError(MLP + ': ' + nm + ': unknown prologue (join tag, aMult = prod S[id], sId-major double loop)')
+        l1, _ = _block_after(outer, r'for\s*\(\s*int\s+sId\s*=\s*0\s*;\s*sId\s*<\s*f\.values\.rows\(\)\s*;\s*\+\+sId\s*\)\s*\{', MLP + ' ' + nm + ' sId loop')
+        l2, _ = _block_after(l1, r'for\s*\(\s*int\s+aId\s*=\s*0\s*;\s*aId\s*<\s*f\.values\.cols\(\)\s*;\s*\+\+aId\s*\)\s*\{', MLP + ' ' + nm + ' aId loop')
+        res[nm] = mdp_loop_body(re.sub(r'\s+', '', l2), 'if(checkEqualSmall(f.values(sId,aId),0.0))continue;',
+                                'newFactor->getData().emplace_back(sId+aMult*aId,currentRule);currentRule+=1;', MLP + ' ' + nm)
+    return res
+
+
+def gen_c15setup():
+    src = E.strip_comments(E.read(FLP))
+    opbody, _ = _body(src, r'std::optional<Vector>\s+FactoredLP::operator\(\)\s*\([^)]*\)\s*\{', FLP + ' FactoredLP::operator()')
+    flat_all = re.sub(r'\s+', '', opbody)
+    # the buffer is cleared once before the loops, the weight column after every basis, the constant column after the first loop
+    for need, what in (('lp.setObjective(phiId,false);lp.row.setZero();', 'row buffer cleared after setObjective'),):
+        if need not in flat_all:
+            raise E.ExtractError(FLP + ': operator(): expected `%s` (%s)' % (need, what))
+    outC, afterC = _block_after(opbody, r'for\s*\(\s*const\s+auto\s*&\s*f\s*:\s*C\.bases\s*\)\s*\{', FLP + ' loop over C.bases')
+    inC, restC = _block_after(outC, r'for\s*\(\s*int\s+i\s*=\s*0\s*;\s*i\s*<\s*f\.values\.size\(\)\s*;\s*\+\+i\s*\)\s*\{', FLP + ' entry loop of C')
+    if re.sub(r'\s+', '', restC) != 'lp.row[currentWeight++]=0.0;':
+        raise E.ExtractError(FLP + ': after the entry loop of C expected exactly `lp.row[currentWeight++] = 0.0;`, found ' + re.sub(r'\s+', '', restC)[:80])
+    if not re.sub(r'\s+', '', outC).startswith('autonewFactor=graph.getFactor(f.tag);for('):
+        raise E.ExtractError(FLP + ': loop over C.bases has an unknown prologue')
+    if not re.sub(r'\s+', '', afterC).startswith('if(addConstantBasis)lp.row[constBasisId]=0.0;'):
+        raise E.ExtractError(FLP + ': after the loop over C.bases expected `if (addConstantBasis) lp.row[constBasisId] = 0.0;`')
+    outB, _ = _block_after(afterC, r'for\s*\(\s*const\s+auto\s*&\s*f\s*:\s*b\.bases\s*\)\s*\{', FLP + ' loop over b.bases')
+    inB, restB = _block_after(outB, r'for\s*\(\s*int\s+i\s*=\s*0\s*;\s*i\s*<\s*f\.values\.size\(\)\s*;\s*\+\+i\s*\)\s*\{', FLP + ' entry loop of b')
+    if re.sub(r'\s+', '', restB) != '':
+        raise E.ExtractError(FLP + ': unexpected statements after the entry loop of b')
+    bodyC = _setup_body(re.sub(r'\s+', '', inC), FLP + ' entry loop of C')
+    bodyB = _setup_body(re.sub(r'\s+', '', inB), FLP + ' entry loop of b')
+    out = ['/- GENERATED by tools/extract_c15.py from the library source — do not edit.',
+           '   The bodies of the two entry loops of FactoredLP::operator() (one iteration: two pushes), statement by statement;',
+           '   the translator also checks: `lp.row.setZero()` before the loops, `lp.row[currentWeight++] = 0.0` after every basis of C,',
+           '   `if (addConstantBasis) lp.row[constBasisId] = 0.0` after the loop over C. -/',
+           'import AITB.Model.FLPBuf', 'namespace AITB.Gen', 'open AITB.FLP', '',
+           'def flpSetupCBody : List SStmt := [%s]' % ', '.join(bodyC), '',
+           'def flpSetupBBody : List SStmt := [%s]' % ', '.join(bodyB), '']
+    out.append('/-- the three entry loops of LinearProgramming::solveLP (after the zero-skip guard, before `emplace_back(index, currentRule); currentRule += 1`;')
+    out.append('    the translator also checks the guard, the tail, the join tag and `aMult = prod S[id]` with the sId-major double loop) -/')
+    for nm, st in mdp_setup_bodies().items():
+        out.append('def %s : List MStmt := [%s]' % (nm, ', '.join(st)))
+    out += ['', 'end AITB.Gen', '']
+    E.write_if_changed('C15Setup', '\n'.join(out))
+
+
+GENERATORS = [gen_c15facts, gen_c15callbacks, gen_c15setup]
